@@ -36,10 +36,15 @@ def make_molecule(mc):
     import quantarhei as qr
     m = qr.Molecule([0.0, float(mc["E"])])
     m.set_dipole((0, 1), [float(x) for x in mc["dip"]])
-    for md in mc["modes"]:
+    for i, md in enumerate(mc["modes"]):
         mode = qr.Mode(float(md["omega"]))
+        # order of the independent setters: every second mode declares its ground-state level count BEFORE it is attached
+        early = (i + int(mc["E"])) % 2 == 1
+        if early:
+            mode.set_nmax(0, md["nmax"][0])
         m.add_Mode(mode)
-        mode.set_nmax(0, md["nmax"][0])
+        if not early:
+            mode.set_nmax(0, md["nmax"][0])
         mode.set_nmax(1, md["nmax"][1])
         mode.set_HR(1, md["hr"])
     return m
